@@ -69,6 +69,16 @@ def corpus(seed):
     for i, s in enumerate(['select from', 'select a from t where', 'x y ; select 1', 'select # from t', "create skill s using a = 1", "select -'x'",
                            'select a,, b from t', 'insert into t values (', 'select * from t limit 1 limit 2', 'update t set', '', 'select ' + '(' * 30 + '1']):
         out.append((f'parse-bad:{i}', 'parse', (s, 'mindsdb' if i % 3 else 'mysql')))
+    # syntax errors of every shape (token-level mutations of valid statements): the error report, suggestions included,
+    # is part of the result and must not depend on the reports made before it
+    for i in range(90):
+        s0 = base[r.randrange(len(base))] if i % 3 else sqlgen.mindsdb_statement(r)[1]
+        try:
+            toks = monitors.lex_all(s0, 'mindsdb')
+        except Exception:
+            toks = []
+        ml, t = sqlgen.mutate(s0, toks, r, sqlgen.keyword_vocab(monitors.lexer_classes()['mindsdb']))
+        out.append((f'parse-mut:{i}', 'parse', (t, 'mindsdb' if i % 4 else 'mysql')))
     # plan: federated, model joins with versions (the shared-metadata stress), time series
     for i in range(25):
         text, _, _ = fedgen.fed_query(r, single=(i % 4 == 0))
